@@ -9,6 +9,8 @@ import (
 	"errors"
 	"fmt"
 	"log/slog"
+	"os"
+	"path/filepath"
 	"regexp"
 	"strconv"
 	"strings"
@@ -19,7 +21,11 @@ import (
 	"github.com/form3tech-oss/f1/v2/internal/progress"
 	"github.com/form3tech-oss/f1/v2/internal/run"
 	"github.com/form3tech-oss/f1/v2/internal/run/views"
+	"github.com/form3tech-oss/f1/v2/internal/ui"
 	"github.com/form3tech-oss/f1/v2/internal/verifharness/hlib"
+	"github.com/form3tech-oss/f1/v2/internal/verifshim/vrt"
+	"github.com/form3tech-oss/f1/v2/internal/verifshim/vtime"
+	f1testing "github.com/form3tech-oss/f1/v2/pkg/f1/testing"
 )
 
 var (
@@ -340,9 +346,145 @@ func resultSuite() hlib.Suite {
 
 var thorough bool
 
+// wholeRunSuite: what a real run prints. The summary printed (or logged) at the
+// end of Run.Do states the counts of the result Do returns, the banner its
+// verdict; every progress line states counts the run had reached by then
+// (never more than the final ones, never decreasing).
+func wholeRunSuite() hlib.Suite {
+	return hlib.Suite{Name: "whole-runs/printed-summary-and-progress-equal-the-returned-result", Run: func(r *hlib.Rec) {
+		dir, err := os.MkdirTemp("", "c19run")
+		if err != nil {
+			vrt.Infra("temp dir: " + err.Error())
+		}
+		defer os.RemoveAll(dir)
+		for _, mode := range []string{"constant", "users"} {
+			for _, pattern := range []string{"all-pass", "every-second-fails", "slow-bodies-dropped-requests", "setup-fails", "teardown-fails"} {
+				for _, ending := range []string{"limit", "duration"} {
+					for _, interactive := range []bool{true, false} {
+						if !r.Mine() {
+							continue
+						}
+						r.Eval()
+						input := fmt.Sprintf("mode=%s bodies=%s ending=%s interactive-output=%v", mode, pattern, ending, interactive)
+						r.SampleCase(input)
+						var buf bytes.Buffer
+						out := ui.NewOutput(slog.New(slog.NewJSONHandler(&buf, nil)), ui.NewDiscardPrinter(), false, true)
+						if interactive {
+							out = ui.NewOutput(hlib.DiscardLogger(), ui.NewPrinter(&buf, &buf), true, true)
+						}
+						rs := &hlib.RunSpec{Mode: mode, CompletionTimeout: time.Second, Output: out,
+							Opts: options.RunOptions{MaxDuration: 2300 * time.Millisecond, Concurrency: 1, MaxFailures: 100}}
+						if interactive {
+							rs.LogFile = filepath.Join(dir, "scenario.log") // views are printed only when scenario logs go to a file
+						}
+						if ending == "limit" {
+							rs.Opts.MaxIterations = 5
+						}
+						if mode == "constant" {
+							rs.Flags = map[string]string{"rate": "1/100ms", "distribution": "none"}
+							if pattern == "slow-bodies-dropped-requests" {
+								rs.Flags["rate"] = "2/100ms"
+							}
+						}
+						rs.ScenarioFn = func(t *f1testing.T) f1testing.RunFn {
+							if pattern == "setup-fails" {
+								t.FailNow()
+							}
+							if pattern == "teardown-fails" {
+								t.Cleanup(func() { t.FailNow() })
+							}
+							n := 0
+							return func(t *f1testing.T) {
+								n++
+								switch {
+								case pattern == "slow-bodies-dropped-requests":
+									vtime.Sleep(250 * time.Millisecond)
+								case mode == "users":
+									vtime.Sleep(100 * time.Millisecond)
+								}
+								if pattern == "every-second-fails" && n%2 == 0 {
+									t.Fail()
+								}
+							}
+						}
+						res := hlib.RunOnce(rs, -1, 0, 60*time.Second)
+						if res.BuildErr != nil || res.Out.Status != vrt.StOK {
+							r.Fail("C19/run-broken", "whole-run", fmt.Sprint(res.BuildErr, res.Out.Status, res.Out.Crash, res.Out.Detail), input)
+							continue
+						}
+						total := res.Success + res.Fail + res.Dropped
+						if interactive {
+							text := ansi.ReplaceAllString(buf.String(), "")
+							if m := reStarted.FindStringSubmatch(text); m == nil || m[1] != strconv.FormatUint(res.Success+res.Fail, 10) {
+								r.Fail("C19/summary-started", "whole-run", fmt.Sprintf("started line %v, the result has %d", m, res.Success+res.Fail), input)
+							}
+							checkLine(r, text, reSucc, "successful", res.Success, total, input)
+							checkLine(r, text, reFail, "failed", res.Fail, total, input)
+							checkLine(r, text, reDrop, "dropped", res.Dropped, total, input)
+							if hasFailed := strings.Contains(text, "Load Test Failed"); hasFailed != res.Failed || strings.Contains(text, "Load Test Passed") == res.Failed {
+								r.Fail("C19/banner", "whole-run", fmt.Sprintf("banner says failed=%v, Result.Failed()=%v", hasFailed, res.Failed), input)
+							}
+							var ps, pd, pf uint64
+							lines := reProg.FindAllStringSubmatch(text, -1)
+							for _, m := range lines {
+								s, _ := strconv.ParseUint(m[1], 10, 64)
+								d, _ := strconv.ParseUint(m[2], 10, 64) // "" (no dropped part) parses as 0
+								f, _ := strconv.ParseUint(m[3], 10, 64)
+								if s < ps || d < pd || f < pf || s > res.Success || d > res.Dropped || f > res.Fail {
+									r.Fail("C19/progress-line", "whole-run", fmt.Sprintf("progress line %q after one with ✔%d ⦸%d ✘%d; the run ended with ✔%d ⦸%d ✘%d", m[0], ps, pd, pf, res.Success, res.Dropped, res.Fail), input)
+								}
+								ps, pd, pf = s, d, f
+							}
+							if ending == "duration" && pattern != "setup-fails" && len(lines) < 2 {
+								r.Fail("C19/progress-line", "whole-run-missing", fmt.Sprintf("%d progress lines in a run of 2.3 s", len(lines)), input)
+							}
+						} else {
+							var last *logged
+							var ps, pd, pf uint64
+							nprog := 0
+							for _, line := range bytes.Split(bytes.TrimSpace(buf.Bytes()), []byte("\n")) {
+								var lg logged
+								if json.Unmarshal(line, &lg) != nil {
+									continue
+								}
+								switch lg.Msg {
+								case "Load Test Passed", "Load Test Failed":
+									l := lg
+									last = &l
+								case "progress":
+									nprog++
+									st := lg.Stats
+									if st.Successful < ps || st.Dropped < pd || st.Failed < pf || st.Successful > res.Success || st.Dropped > res.Dropped || st.Failed > res.Fail {
+										r.Fail("C19/progress-record", "whole-run", fmt.Sprintf("progress record %+v after ✔%d ⦸%d ✘%d; the run ended with ✔%d ⦸%d ✘%d", st, ps, pd, pf, res.Success, res.Dropped, res.Fail), input)
+									}
+									ps, pd, pf = st.Successful, st.Dropped, st.Failed
+								}
+							}
+							if last == nil {
+								r.Fail("C19/structured", "whole-run-no-summary-record", buf.String(), input)
+								continue
+							}
+							if (last.Msg == "Load Test Failed") != res.Failed {
+								r.Fail("C19/structured-banner", "whole-run", fmt.Sprintf("message %q, Result.Failed()=%v", last.Msg, res.Failed), input)
+							}
+							if last.Stats.Successful != res.Success || last.Stats.Failed != res.Fail || last.Stats.Dropped != res.Dropped || last.Stats.Started != res.Success+res.Fail {
+								r.Fail("C19/structured-counts", "whole-run", fmt.Sprintf("logged %+v, the result has ✔%d ⦸%d ✘%d", last.Stats, res.Success, res.Dropped, res.Fail), input)
+							}
+							if ending == "duration" && pattern != "setup-fails" && nprog < 2 {
+								r.Fail("C19/progress-record", "whole-run-missing", fmt.Sprintf("%d progress records in a run of 2.3 s", nprog), input)
+							}
+						}
+						r.Distinct(fmt.Sprintf("%s %s %s %v", mode, pattern, ending, interactive))
+					}
+				}
+			}
+		}
+	}}
+}
+
 func suites(tier string) []hlib.Suite {
 	thorough = tier != "quick"
-	return []hlib.Suite{viewsSuite(), resultSuite()}
+	return []hlib.Suite{viewsSuite(), resultSuite(), wholeRunSuite()}
 }
 
 func main() { hlib.EnumMain("C19", suites) }
